@@ -790,6 +790,8 @@ def classify(case, impl):
         st = case.get("store", "all")
         tags.append("store=" + ("all" if st == "all" else "indices" if isinstance(st, list) else "string"))
         tags.append("cn" if case.get("cn") is not None else "no-cn")
+        if case.get("long"):
+            tags.append("long-run(>=60000 steps)")
         if case.get("rerun"):
             tags.append("history=run,query,reseed,run,query")
         if case.get("mutate"):
@@ -905,6 +907,24 @@ def _real(rng, big=False):
     return case
 
 
+def _long(rng):
+    """a LONG process (>= 60000 steps) on a small batch with few stored vials: one column per step must still be
+    stored, and the statistics must still be those visible in the stored trajectory"""
+    shape = rng.choice([[1, 1, 1], [2, 2, 1]])
+    n = shape[0] * shape[1] * shape[2]
+    dt = rng.choice([0.25, 0.2, 0.125])
+    steps = rng.choice([60000, 64000, 72000])
+    t_tot = steps * dt
+    start, stop = rng.choice([20, 5]), -40
+    rate = (start - stop) / (t_tot * rng.choice([0.3, 0.5]))
+    K = rng.choice([20, 50, 100])
+    store = "all" if n == 1 else rng.choice([[0], [3, 1], [2]])
+    return dict(kind="real", long=True, shape=shape, k={"int": 20, "ext": 20, "s0": K}, dt=dt, rate=rate, start=start,
+                stop=stop, t_tot=t_tot, holds=None, cn=None, store=store, solThr=0.9, seed=rng.randint(0, 10 ** 6),
+                seed_v=rng.randint(0, 10 ** 6), initIce=rng.choice(["indirect", "direct"]), group="all",
+                thresholds=[None, 0], qfrac=[0, 0.3, 0.6, 1], offgrid=True)
+
+
 def _laststep(rng):
     c = _real(rng)
     c["kind"] = "laststep"
@@ -968,6 +988,8 @@ def cases(rng, tier):
         yield _fake(rng)
     for _ in range(n_not):
         yield _notrun(rng)
+    for _ in range(1 if tier == "quick" else 8):
+        yield _long(rng)
     from props import c10
 
     for _ in range(n_loop):
